@@ -263,6 +263,29 @@ func prFinalChecks(s *sim, book *prBook) {
 		times []time.Duration
 	}
 	for side := 0; side < 2; side++ {
+		// DCEP chunks are exempt from every policy.  The white-box bookkeeping of prCheckInflight only sees chunks that
+		// are in flight at one of its calls; a message that left the pending queue during the healing phase is only on
+		// the wire.  DATA: every fragment carries the PPI; I-DATA: the first fragment does, the others are found
+		// through (stream, U flag, MID).
+		type midKey struct {
+			sid uint16
+			u   bool
+			mid uint32
+		}
+		dcepMID := map[midKey]bool{}
+		for _, p := range s.wire {
+			if p.from != side || p.pkt == nil {
+				continue
+			}
+			for _, c := range p.pkt.chunks {
+				if d, ok := c.(*chunkPayloadData); ok && d.payloadType == PayloadTypeWebRTCDCEP {
+					book.dcepTSN[side][d.tsn] = true
+					if d.isIData() {
+						dcepMID[midKey{d.streamIdentifier, d.unordered, d.messageIdentifier}] = true
+					}
+				}
+			}
+		}
 		per := map[uint32]*txs{}
 		for _, p := range s.wire {
 			if p.from != side || p.pkt == nil {
@@ -270,6 +293,9 @@ func prFinalChecks(s *sim, book *prBook) {
 			}
 			for _, c := range p.pkt.chunks {
 				if d, ok := c.(*chunkPayloadData); ok {
+					if d.isIData() && dcepMID[midKey{d.streamIdentifier, d.unordered, d.messageIdentifier}] {
+						book.dcepTSN[side][d.tsn] = true
+					}
 					x := per[d.tsn]
 					if x == nil {
 						x = &txs{sid: d.streamIdentifier, frag: !(d.beginningFragment && d.endingFragment)}
